@@ -1,0 +1,23 @@
+//go:build verif
+// +build verif
+
+package gts
+
+// Exports of package internals for the verification harness in /verif.
+// Compiled only with -tags verif; adds no behaviour.
+
+func VerifAsComplete(loc Location) Location { return asComplete(loc) }
+
+func VerifFlattenRegion(r Region) []Segment { return flattenRegion(r) }
+
+func VerifInvertSegments(ss []Segment, n int) []Segment { return invertSegments(ss, n) }
+
+func VerifTryLocation(s string) (Location, bool) { return tryLocation(s) }
+
+func VerifShiftSelector(s string) (string, string) { return shiftSelector(s) }
+
+func VerifRangeCompare(s1, e1, s2, e2 int) int { return rangeCompare(s1, e1, s2, e2) }
+func VerifRangeWithin(s, e, l, u int) bool     { return rangeWithin(s, e, l, u) }
+func VerifRangeOverlap(s, e, l, u int) bool    { return rangeOverlap(s, e, l, u) }
+
+func VerifInsertBytes(p []byte, pos int, q []byte) []byte { return insert(p, pos, q) }
